@@ -2,7 +2,7 @@
   C26 handlers: the model's answer for each request of harness/src/p/c26.rs (printed in exactly
   the harness's format) and the Spec verdict judged on the implementation's output.
   Spec (C26): distances symmetric, non-negative, zero on identical inputs (cosine: ≤ 2^-50),
-  cosine ∈ [0,2]; quantise→dequantise error ≤ (1/2 + 2^-10) quantisation steps; LSH buckets are a
+  cosine ∈ [0,2]; quantisation codes / round trip within (1/2 + 2^-10) quantisation steps; LSH buckets are a
   function of (vector, table, hyperplane count); probe sequences start at the bucket, are
   distinct, non-decreasing in Hamming distance, of the stated length; interval predicates.
 -/
@@ -98,7 +98,7 @@ def distSpec (ab bb : List Nat) (impl : String) : String :=
   if !(allFinite ab && allFinite bb) then "na" else
   let fs := fields impl
   let same := ab.length == bb.length
-  let cls := if hugeComponent ab || hugeComponent bb then "f32_overflow" else "unclassified"
+  let cls := "unclassified"
   let bad := ["e", "s", "c", "d", "m"].filterMap (fun k =>
     match field fs k with
     | [xab, xba, xaa] =>
@@ -136,7 +136,7 @@ def int8Model (a b : List Int) : String :=
 
 def int8Spec (a : List Int) (same : Bool) (impl : String) : String :=
   let fs := fields impl
-  let cls := if a.all (· == 0) then "int8_cosine_zero" else "unclassified"
+  let cls := "unclassified"
   let bad := ["e", "c", "d", "m"].filterMap (fun k =>
     match field fs k with
     | [xab, xba, xaa] =>
@@ -174,6 +174,11 @@ def parseInts (s : String) (sep : String) : Option (List Int) :=
 /-- budget: half a quantisation step plus 2^-10 step for the float roundings of the code. -/
 def stepBudget : Float := 0.5 + 0.0009765625
 
+/-- Spec (b): every code is within (1/2 + 2^-10) of the exact scaled value (`x·127/max|v|`,
+    resp. `(x-min)/range·255-128`), for all finite inputs; the dequantised value
+    `q·(max|v|/127)` is within the same budget of `x` whenever that f32 scale is representable
+    (`max|v|/127` normal and `max|v| < 2^127` — outside, `dequantize_vector_with_scale`'s f32 scale
+    cannot express the inverse). -/
 def quantSpec (ab : List Nat) (impl : String) : String :=
   if ab.isEmpty || !(allFinite ab) then "na" else
   let xs : List Float := ab.map (fun b => (NF.ofBits32 b).toFloat)
@@ -182,7 +187,7 @@ def quantSpec (ab : List Nat) (impl : String) : String :=
   let mn := xs.foldl (fun m x => if x < m then x else m) (Float.ofBits 0x7ff0000000000000)
   let mx := xs.foldl (fun m x => if x > m then x else m) (Float.ofBits 0xfff0000000000000)
   let mbits := ab.foldl (fun m b => Nat.max m (b % 2 ^ 31)) 0
-  let cls := if mbits < 0x03800000 then "quant_tiny" else if mbits ≥ 0x7e800000 then "quant_huge" else "unclassified"
+  let deqDomain := mbits ≥ 0x04000000 && mbits < 0x7f000000
   match field fs "lin", field fs "sym", field fs "deq" with
   | [l], [s], [d] =>
     match parseInts l "/", parseInts s "/", (if d == "-" then some [] else some (d.splitOn "/")) with
@@ -191,15 +196,18 @@ def quantSpec (ab : List Nat) (impl : String) : String :=
       else if lin.any (fun q => q < -128 || q > 127) || sym.any (fun q => q < -127 || q > 127) then specFail "unclassified" "code-range"
       else
         let step := mabs / 127.0
-        let symBad := (xs.zip deq).any (fun (x, h) => match hexToNat h with
+        let symCodeBad := mabs > 0.0 && (xs.zip sym).any (fun (x, q) => !((x / mabs * 127.0 - Float.ofInt q).abs ≤ stepBudget))
+        let symZeroBad := mabs == 0.0 && sym.any (· != 0)
+        let symBad := deqDomain && (xs.zip deq).any (fun (x, h) => match hexToNat h with
           | some n => !((x - (Float32.ofBits (UInt32.ofNat n)).toFloat).abs ≤ step * stepBudget)
           | none => true)
         let range := mx - mn
         let lstep := range / 255.0
         let linBad := range > 0.0 && (xs.zip lin).any (fun (x, q) => !((x - (mn + (Float.ofInt (q + 128)) * lstep)).abs ≤ lstep * stepBudget))
         let linConstBad := range == 0.0 && lin.any (· != 0)
-        if symBad then specFail cls "symmetric-roundtrip-exceeds-half-step"
-        else if linBad || linConstBad then specFail (if cls == "quant_huge" then cls else "unclassified") "linear-roundtrip-exceeds-half-step"
+        if symCodeBad || symZeroBad then specFail "unclassified" "symmetric-code-off-by-more-than-half"
+        else if symBad then specFail "unclassified" "symmetric-roundtrip-exceeds-half-step"
+        else if linBad || linConstBad then specFail "unclassified" "linear-roundtrip-exceeds-half-step"
         else "ok"
     | _, _, _ => specFail "unclassified" "unparsable"
   | _, _, _ => specFail "unclassified" "unparsable"
@@ -248,32 +256,16 @@ def probesH : Handler := fun args impl =>
     { model, spec, nt := m > 1 && n > 0 }
   | _ => badReq
 
-def fltLt (a b : Float) : Bool := decide (a < b)
+/-- the comparator of the repaired sort: IEEE `<` on non-NaNs, every NaN after every non-NaN. -/
+def fltLt (a b : Float) : Bool := if a.isNaN then false else if b.isNaN then true else decide (a < b)
 
-def nanSummary (bucket : Int) (nbits : Nat) (ps : List Int) : String :=
-  let b := patOfInt bucket
-  let pats := ps.map patOfInt
-  let hds := pats.map (hamming b)
-  s!"nanorder len={ps.length} head={b01 (ps.head?.map (· == bucket) |>.getD true)} nodup={b01 (nodupNat pats)} mono={b01 (monotone hds)} inrange={b01 (pats.all (fun p => (p ^^^ b) >>> nbits == 0))} maxhd={hds.foldl Nat.max 0}"
-
-/-- model answer for `lsh_probes_ranked` in the harness's format. -/
+/-- model answer for `lsh_probes_ranked`. -/
 def rankedModel (b : Int) (m : Nat) (d : List Float) : String :=
-  let ps := (probesRanked fltLt (patOfInt b) d m).map intOfPat
-  if (d.take 62).any Float.isNaN then nanSummary b (min d.length 62) ps else intsRes ps
-
-/-- identifying predicate of the sort-panic family: among the distances the code sorts there is a
-    NaN and a non-NaN and more than 20 entries (Rust's `sort_by` checks the order only beyond its
-    small-sort threshold). -/
-def nanMixedLarge (d : List Float) : Bool :=
-  let s := d.take 62
-  s.length > 20 && s.any Float.isNaN && s.any (fun x => !x.isNaN)
+  intsRes ((probesRanked fltLt (patOfInt b) d m).map intOfPat)
 
 def rankedSpec (b : Int) (m : Nat) (d : List Float) (impl : String) : String :=
   let nbits := min d.length 62
-  if impl.startsWith "panic:" then specFail (if nanMixedLarge d then "ranked_nan_panic" else "unclassified") "panic"
-  else if impl.startsWith "nanorder" then
-    let want := s!"nanorder len={min m (probeTotal nbits)} head=1 nodup=1 mono=1 inrange=1"
-    if impl.startsWith want then "ok" else specFail "unclassified" "nan-order-laws"
+  if impl.startsWith "panic:" then specFail "unclassified" "panic"
   else match parseInts impl "," with
     | some ps => (match probeLaws b nbits m ps with | none => "ok" | some x => specFail "unclassified" x)
     | none => specFail "unclassified" "unparsable"
@@ -281,12 +273,7 @@ def rankedSpec (b : Int) (m : Nat) (d : List Float) (impl : String) : String :=
 def rankedH : Handler := fun args impl =>
   match args with
   | [sb, sm, sd] => match parseI64 sb, parseUsize sm, f64sOfWire sd with
-    | some b, some m, some d =>
-      let canon := rankedModel b m d
-      -- with NaNs the sort's outcome is unspecified: any permutation (all give `canon`) or,
-      -- for more than 20 mixed entries, the sort's total-order panic
-      let model := if impl.startsWith "panic:user-provided comparison function" && nanMixedLarge d then impl else canon
-      { model, spec := rankedSpec b m d impl, nt := m > 1 && !d.isEmpty }
+    | some b, some m, some d => { model := rankedModel b m d, spec := rankedSpec b m d impl, nt := m > 1 && !d.isEmpty }
     | _, _, _ => badReq
   | _ => badReq
 
@@ -326,9 +313,7 @@ def cacheOp (c : Cache HP) (op : String) : Cache HP × String :=
   | ["mp", t, n, m, v] => (match parseI64 t, parseUsize n, parseUsize m, vecOfWire v with
     | some t, some n, some m, some v =>
       let (c1, r) := lshBucketDist NF hashFn c (v.map Float32.toFloat) t n
-      -- the harness calls bucket_with_distances and multi_probe for non-finite vectors: two cache accesses
-      let c2 := if vecFinite v then c1 else (lshBucketDist NF hashFn c1 (v.map Float32.toFloat) t n).1
-      (c2, rankedModel (r.1 : Int) m r.2)
+      (c1, rankedModel (r.1 : Int) m r.2)
     | _, _, _, _ => (c, "bad"))
   | ["pw", t, n, d] => (match parseI64 t, parseUsize n, parseUsize d with
     | some t, some n, some d => ((getOrCreate (genHyperplanes NF hashFn) c (t, n, d)).1, "-")
